@@ -213,14 +213,25 @@ func (s *Store) tabulateTerm(raw *Term) *Term {
 			key = s.Concat(vt, key)
 		}
 	}
-	res := s.Const(a.w, vals[n-1])
-	for k := n - 2; k >= 0; k-- {
-		if vals[k] == vals[k+1] && k+1 == n-1 {
-			continue // same as the default
+	// balanced multiplexer tree over the key bits (most significant first): depth = number of
+	// input bits, equal sub-tables collapse, and equal tables become the same hash-consed term
+	var build func(lo, hi int, bit int) *Term
+	build = func(lo, hi int, bit int) *Term {
+		same := true
+		for k := lo + 1; k < hi; k++ {
+			if vals[k] != vals[lo] {
+				same = false
+				break
+			}
 		}
-		res = s.Ite(s.Eq(key, s.Const(key.w, uint64(k))), s.Const(a.w, vals[k]), res)
+		if same || bit < 0 {
+			return s.Const(a.w, vals[lo])
+		}
+		mid := lo + (hi-lo)/2
+		c := s.Eq(s.Extract(key, uint16(bit), uint16(bit)), s.Const(1, 1))
+		return s.Ite(c, build(mid, hi, bit-1), build(lo, mid, bit-1))
 	}
-	return res
+	return build(0, n, total-1)
 }
 
 // evalTermDefault evaluates t under env; variables missing from env are set to zero in env (they
